@@ -103,6 +103,7 @@ static void h_run_case(hcase_t* c) {
   rt_reg((void*)&D.top, 8, 0, 8);
   rt_reg((void*)&D.bottom, 8, 1, 8);
   rt_reg((void*)&D.underlying_array, 8, 2, 8);
+  rt_reg_rest(&D, sizeof D, 200000);   /* search mode only: fields the model does not know (array locs end below 100000) */
   rt_run(c->nthreads, body, c->sched, c->nsched, dmax);
   rt_print_trace();
 }
